@@ -166,6 +166,9 @@ class ConcurrentExecutor(ABC, Generic[CallableType, ResultType]):
         # BaseException (e.g. BackgroundThreadError after a checkpoint failure) that surfaced in a
         # branch or in the timer thread and must be re-raised by the thread waiting in execute()
         self._fatal_exception: BaseException | None = None
+        # Serialises the decision to complete/suspend with the timer-driven resubmission of
+        # suspended branches (re-entrant: a done-callback can run inside submit_task)
+        self._decision_lock = threading.RLock()
 
         # ExecutionCounters will keep track of completion criteria and on-going counters
         min_successful = self.completion_config.min_successful or len(self.executables)
@@ -213,14 +216,20 @@ class ConcurrentExecutor(ABC, Generic[CallableType, ResultType]):
 
         def resubmitter(executable_with_state: ExecutableWithState) -> None:
             """Resubmit a timed suspended task."""
-            try:
-                execution_state.create_checkpoint()
-            except BaseException as e:  # noqa: BLE001
-                # checkpointing failed: nobody else would wake the waiting thread
-                self._fatal_exception = e
-                self._completion_event.set()
-                return
-            submit_task(executable_with_state)
+            with self._decision_lock:
+                if self._completion_event.is_set():
+                    # The executor already decided to complete or suspend. Starting the branch
+                    # now would leave it running in an abandoned pool, concurrently with the
+                    # next incarnation of the same branch.
+                    return
+                try:
+                    execution_state.create_checkpoint()
+                except BaseException as e:  # noqa: BLE001
+                    # checkpointing failed: nobody else would wake the waiting thread
+                    self._fatal_exception = e
+                    self._completion_event.set()
+                    return
+                submit_task(executable_with_state)
 
         thread_executor = ThreadPoolExecutor(max_workers=max_workers)
         try:
@@ -349,14 +358,16 @@ class ConcurrentExecutor(ABC, Generic[CallableType, ResultType]):
             self._completion_event.set()
             return
 
-        # Check if execution should complete or suspend
-        if self.counters.should_complete():
-            self._completion_event.set()
-        else:
-            suspend_result = self.should_execution_suspend()
-            if suspend_result.should_suspend:
-                self._suspend_exception = suspend_result.exception
+        # Check if execution should complete or suspend. Decide under the lock the resubmitter
+        # holds, so that no branch is resubmitted after the decision was taken.
+        with self._decision_lock:
+            if self.counters.should_complete():
                 self._completion_event.set()
+            else:
+                suspend_result = self.should_execution_suspend()
+                if suspend_result.should_suspend:
+                    self._suspend_exception = suspend_result.exception
+                    self._completion_event.set()
 
     def _create_result(self) -> BatchResult[ResultType]:
         """
